@@ -237,8 +237,9 @@ type joeWorld struct {
 	j   *sse.Joe
 	rep *simReplayer
 
-	faults   bool
-	repKind  int // 0 none, 1 finite, 2 valid
+	faults    bool
+	noWitness bool // Joe runs without any Replayer: no Put-order witness
+	repKind   int  // 0 none, 1 finite, 2 valid
 	auto     bool
 	capacity int
 
@@ -325,6 +326,11 @@ func (w *joeWorld) generate() {
 		w.rep.inner = vr
 	}
 	w.j = &sse.Joe{Replayer: w.rep}
+	if w.repKind == 0 && (prop == "C03" || prop == "C07" || prop == "C06") && ch.Chance(1, 6, "no replayer at all") {
+		// Joe's built-in no-op replayer: no witness, only the witness-free clauses apply
+		w.j = &sse.Joe{}
+		w.noWitness = true
+	}
 
 	// publishers
 	nPubs := ch.Weighted([]int{3, 4, 2}, "publishers") + 1
@@ -758,6 +764,9 @@ func (w *joeWorld) sampleState() {
 func (w *joeWorld) describe() []string {
 	var out []string
 	rk := []string{"no real replayer", "FiniteReplayer", "ValidReplayer"}[w.repKind]
+	if w.noWitness {
+		rk = "none (Joe's built-in no-op)"
+	}
 	out = append(out, fmt.Sprintf("replayer=%s capacity=%d autoIDs=%v faults=%v prehistory=%d putFail=%d putPanic=%d replayFail=%d replayPanic=%d",
 		rk, w.capacity, w.auto, w.faults, w.prehistory, w.rep.failPutAt, w.rep.panicPutAt, w.rep.failReplayAt, w.rep.panicReplayAt))
 	for _, p := range w.pubs {
@@ -879,7 +888,7 @@ func (w *joeWorld) checkPublishResults() {
 				o.violate("C03", "closed-but-accepted", "Publish(%s) returned ErrProviderClosed but the message was accepted", m.tag)
 			}
 		case m.err == nil:
-			if !w.rep.panicked || inL[m.tag] > 0 {
+			if (!w.rep.panicked && !w.noWitness) || inL[m.tag] > 0 {
 				if inL[m.tag] != 1 {
 					o.violate("C03", "accepted-once", "Publish(%s) returned nil but the message was put %d times", m.tag, inL[m.tag])
 				} else if le.err != nil {
@@ -957,7 +966,8 @@ func (w *joeWorld) checkDeliveries() {
 	for i, e := range L {
 		pos[e.tag] = i
 	}
-	witnessOK := !w.rep.panicked
+	witnessOK := !w.rep.panicked && !w.noWitness
+	w.checkWitnessFree()
 	for _, s := range w.subs {
 		healthy := s.sub.FailSendAt == 0 && s.sub.FailFlushAt == 0
 		prop := "C03"
@@ -1003,7 +1013,7 @@ func (w *joeWorld) checkDeliveries() {
 			}
 		}
 		if s.accepted == 0 {
-			if w.rep.panicked {
+			if w.rep.panicked || w.noWitness {
 				continue // subscribed after the replayer had panicked: no acceptance witness (order, duplicates and topics were checked above)
 			}
 			if len(sent) > 0 {
@@ -1122,6 +1132,63 @@ func (w *joeWorld) checkMustInclude(s *joeSub, seen map[string]bool, endSeq int,
 		if m.invoked > s.accepted && (endSeq == 0 || m.returned < endSeq) && !seen[m.tag] {
 			w.o.violate(prop, "missing", "sub%d (topics %s) never received %s, published entirely within its subscription; got %s", s.id, fmtTopics(s.topics), m.tag, tagsOf(s.sub.Sent()))
 			return
+		}
+	}
+}
+
+// checkWitnessFree: clauses that need no Put-order witness — per-publisher
+// program order at every subscriber, and any two subscribers agree on the
+// relative order of the messages both received.
+func (w *joeWorld) checkWitnessFree() {
+	prop := "C03"
+	if w.faults {
+		prop = "C17"
+	}
+	orderOf := func(s *joeSub) map[string]int {
+		m := map[string]int{}
+		for i, msg := range s.sub.Sent() {
+			if _, dup := m[msgTag(msg)]; !dup {
+				m[msgTag(msg)] = i
+			}
+		}
+		return m
+	}
+	var orders []map[string]int
+	for _, s := range w.subs {
+		orders = append(orders, orderOf(s))
+	}
+	// program order of one publisher
+	for si, s := range w.subs {
+		for _, p := range w.pubs {
+			last := -1
+			for _, m := range p.msgs {
+				if pos, ok := orders[si][m.tag]; ok {
+					if pos < last {
+						w.o.violate(prop, "program-order", "sub%d received pub%d's %s before an earlier message of the same publisher: %s", s.id, p.id, m.tag, tagsOf(s.sub.Sent()))
+					}
+					last = pos
+				}
+			}
+		}
+	}
+	// pairwise agreement
+	for a := 0; a < len(w.subs); a++ {
+		for b := a + 1; b < len(w.subs); b++ {
+			var common []string
+			for tag := range orders[a] {
+				if _, ok := orders[b][tag]; ok {
+					common = append(common, tag)
+				}
+			}
+			for i := 0; i < len(common); i++ {
+				for j := i + 1; j < len(common); j++ {
+					x, y := common[i], common[j]
+					if (orders[a][x] < orders[a][y]) != (orders[b][x] < orders[b][y]) {
+						w.o.violate(prop, "order-disagreement", "sub%d and sub%d saw %s and %s in opposite orders", w.subs[a].id, w.subs[b].id, x, y)
+						return
+					}
+				}
+			}
 		}
 	}
 }
